@@ -361,6 +361,12 @@ def c01(tier, seed):
     qs += [x for x in c12("quick", seed) if x.name == "c12_tick"]
     qs += c14("quick", seed) + c15("quick", seed)
     if tier == "thorough":
+        for nf in (1, 2):
+            qs.append(Query("c01_linux_loop_%dframe" % nf, "c01_linuxloop.c", "h_linux_loop", defines=["LMTU=576", "NFRAMES=%d" % nf, "LINUX"], unwind=82,
+                            backends=("cadical", "minisat"), timeout=3000, mem_gb=24, replay=False,
+                            bounds={"frames": "%d consecutive receptions, each 576 arbitrary bytes with an arbitrary reported length <= MTU" % nf, "clock": "arbitrary monotone, constant within one frame",
+                                    "interface record": "symbolic MAC/flags/medium/speed/type, MTU 576", "handlers": "all live (no class split)"},
+                            desc="real linux-embedded lltdLoop + real os/linux/lltd_port.c + real core; only system calls stubbed (recvfrom, sendto, clock_gettime, gethostname, getifaddrs, stdio)"))
         qs += c01_block_queries(1500, hello_pairs=((33, 31),)) + c01_block_queries(9216, hello_pairs=((32, 32),))
         qs.append(q_emit_loop(1500, valid_kinds=False))
     return qs
@@ -395,18 +401,24 @@ REL_CLASSES = [  # (class id, name, live handlers, extra defines, max sends)
     (255, "other", [], [], 2),
 ]
 REL_MODE_DESC = {0: "determinism: identical record and frame, independent fresh memory", 1: "C09 induction step: records differ only in stale mapper addresses while no mapper is active",
-                 2: "C09 direct: (arbitrary record -> topology Reset -> frame) vs (freshly started responder -> same frame)", 3: "C17: second interface's record present vs absent"}
+                 2: "C09 direct: (arbitrary record -> topology Reset -> frame) vs (freshly started responder -> same frame)", 3: "C17: second interface's record present vs absent",
+                 4: "C17 threads: interface A alone vs interface A with interface B's same-class handler running inside one of A's platform calls"}
 
 
-def q_rel(mode, K=2, only=None):
+def q_rel(mode, K=2, only=None, preempt_at=None):
     qs = []
     for (cid, name, live, defs, maxsend) in REL_CLASSES:
         if only and name not in only:
             continue
+        if preempt_at is not None:
+            defs = defs + ["V_PREEMPT", "PREEMPT_AT=%d" % preempt_at]
         rep = unreach(*live)
         if name.startswith("qltlv_") is False and cid == 11:
             pass
-        qs.append(blkq("blk_rel%d_%s" % (mode, name), "h_rel", K=K, replace=rep, defines=["REL_MODE=%d" % mode, "REL_CLASS=%d" % cid, "REL_MAXSEND=%d" % maxsend] + defs,
+        nm = "blk_rel%d_%s" % (mode, name) + ("" if preempt_at is None else "_at%d" % preempt_at)
+        if mode == 4:
+            rep = {}
+        qs.append(blkq(nm, "h_rel", K=K, replace=rep, defines=["REL_MODE=%d" % mode, "REL_CLASS=%d" % cid, "REL_MAXSEND=%d" % maxsend] + defs,
                        unwind=max(K + 5, 36 if cid in (0, 11) else 0), no_std_checks=True, replay=False,
                        bounds={"worlds": REL_MODE_DESC[mode], "compared": "per send: length and byte at a universally quantified index; post-records field by field; continuation frame of class '%s'" % name},
                        desc="two-world relational step, class '%s': %s" % (name, REL_MODE_DESC[mode])))
@@ -441,7 +453,11 @@ def c17(tier, seed):
     il = [blkq("blk_interleave_emit_at%d" % k, "h_interleave", replace={}, K=1, unwind=6, no_std_checks=True, defines=["PREEMPT_AT=%d" % k, "V_PREEMPT"],
                bounds={"threads": "B's whole Emit runs inside the %d-th platform call of A's Emit (allocation, address getter, pause, transmit, transmit, release; one query per call index 0..6)" % k, "Emit": "one descriptor each, kinds {0,1}, any addresses/pause"},
                desc="second thread model: pre-emption at platform calls; both interfaces process an Emit; each must transmit exactly its own Probe/Train and ACK") for k in range(7)]
-    qs = q_rel(3) + [q_preempt(True), q_preempt(False)] + il
+    # handler-level thread interleaving: A alone vs A with B's same-class handler inside A's k-th platform call
+    thr = []
+    for k in ((3,) if tier == "quick" else (0, 1, 2, 3, 4, 6, 9, 14, 20)):
+        thr += q_rel(4, K=1, only=["discover", "query", "qltlv_icon", "emit", "probe"], preempt_at=k)
+    qs = q_rel(3) + [q_preempt(True), q_preempt(False)] + il + thr
     if tier == "thorough":
         more = q_rel(3, K=3)
         for q in more:
